@@ -104,8 +104,21 @@ func coord(r *rand.Rand, v *big.Int, size int, mode int) string {
 }
 
 // form: 0 private d only, 1 private with x,y, 2 public uncompressed, 3 public compressed
+// ktyOverride: "" (the key type as it should be), "omit" (no kty member), or the value token to put in its place
+var ktyOverride string
+
+func ktyPart(proper string) [][2]string {
+	switch ktyOverride {
+	case "":
+		return [][2]string{{"int:1", proper}}
+	case "omit":
+		return nil
+	}
+	return [][2]string{{"int:1", ktyOverride}}
+}
+
 func (k *ecKey) tokens(r *rand.Rand, form int, extra []string) string {
-	parts := [][2]string{{"int:1", "int:2"}, {"int:-1", intToken(r, int64(k.crv))}}
+	parts := append(ktyPart("int:2"), [2]string{"int:-1", intToken(r, int64(k.crv))})
 	mode := r.Intn(3)
 	// form: 0 d only, 1 d+x+y, 2 x+y, 3 x + sign bit (compressed), 4 d + x + sign bit
 	if form <= 1 || form == 4 {
@@ -148,7 +161,7 @@ func genEdKey(r *rand.Rand) *edKey {
 
 // form: 0 private d only, 1 private with x, 2 public
 func (k *edKey) tokens(r *rand.Rand, form int, extra []string) string {
-	parts := [][2]string{{"int:1", "int:1"}, {"int:-1", intToken(r, 6)}}
+	parts := append(ktyPart("int:1"), [2]string{"int:-1", intToken(r, 6)})
 	if form <= 1 {
 		parts = append(parts, [2]string{"int:-4", "b:" + hx(k.seed)})
 	}
